@@ -45,12 +45,14 @@ DRAW_CAP = 200_000   # a real gen_wilson run on the grids used here needs a few 
 
 class WTap:
     """records (and optionally scripts) every numpy-global draw gen_wilson makes: value, range, weights, call kind"""
-    def __init__(self, script=None):
+    def __init__(self, script=None, then_random=None):
         self.script = list(script) if script is not None else None
+        self.then_random = then_random        # a random.Random: once the script is used up, continue with its draws
         self.draws, self.ranges, self.notes = [], [], []
 
     def _scripted(self, n):
         if not self.script:
+            if self.then_random is not None: return self.then_random.randrange(n)
             raise NeedDraw(n)
         k = self.script.pop(0)
         if k >= n: raise NeedDraw(-1)
@@ -117,6 +119,26 @@ def run_wilson(rows, cols, script=None, want_state=False):
                 t.state = impl_state(e.__traceback__, rows, cols)
             return None, t, e.arity
     return m, t, None
+
+
+def long_walk_script(rows, cols, bounces):
+    """draws that make the FIRST walk of gen_wilson bounce `bounces` times between two adjacent unvisited cells before anything
+    else happens (a legal, if unlucky, execution: every draw is within its range). Start cell (0,0); needs >= 3 cells in a line."""
+    from maze_dataset.generation.generators import get_neighbors_in_bounds
+    shape = np.array([rows, cols])
+    cells = [(i, j) for i in range(rows) for j in range(cols) if (i, j) != (0, 0)]     # np.where(~visited) order, start (0,0) visited
+    # two adjacent unvisited cells, neither adjacent to ... (any pair works: the walk only ends on a visited cell)
+    a = (rows - 1, cols - 1); b = (rows - 1, cols - 2) if cols >= 2 and (rows - 1, cols - 2) != (0, 0) else (rows - 2, cols - 1)
+    if b == (0, 0) or min(b) < 0: return None
+    def idx(frm, to):
+        nb = [tuple(int(x) for x in r) for r in get_neighbors_in_bounds(np.array(frm), shape)]
+        return nb.index(to)
+    script = [0, 0, cells.index(a)]
+    cur = a
+    for _ in range(bounces):
+        nxt = b if cur == a else a
+        script.append(idx(cur, nxt)); cur = nxt
+    return script
 
 
 def impl_state(tb, rows, cols):
@@ -347,6 +369,22 @@ def run(ctx):
         ctx.count(f"cells={min(r*c, 64)//8*8}+"); ctx.count(f"draws={min(len(t.draws), 400)//50*50}+")
         bad = gens.spanning_tree(r, c, e)
         if bad: ctx.violate(f"gen_wilson {r}x{c} did not return a spanning tree: {bad}", dict(rows=r, cols=c, draws=t.draws, edges=e))
+        pending.append((r, c, e, t, dict(op="C19.run", rows=r, cols=c, draws=t.draws)))
+    # very long walks (a legal execution however unlikely): any step budget / cap / restart logic shows here
+    for (r, c) in [(2, 2), (2, 3), (3, 3), (4, 4), (3, 6)] + ([] if ctx.quick else [(5, 5), (6, 6), (8, 8)]):
+        sc = long_walk_script(r, c, 40 * r * c + 7)
+        if sc is None: continue
+        from maze_dataset.generation.generators import LatticeMazeGenerators as LG
+        with WTap(sc, then_random=ctx.rng) as t:
+            try:
+                m = LG.gen_wilson(np.array([r, c]))
+            except TooManyDraws:
+                ctx.disagree(f"real gen_wilson on {r}x{c} did not finish after a long scripted walk", dict(rows=r, cols=c)); continue
+        e = gens.edges_of(m.connection_list)
+        ctx.case([r, c, "long-walk", len(t.draws)], nontrivial=True); ctx.count("long_walk_runs")
+        bad = gens.spanning_tree(r, c, e)
+        if bad: ctx.violate(f"gen_wilson {r}x{c} after a walk of {len(sc)-3} steps that bounces between two unvisited cells (a legal execution) did not return a spanning tree: {bad}",
+                            dict(rows=r, cols=c, draws=t.draws, edges=e))
         pending.append((r, c, e, t, dict(op="C19.run", rows=r, cols=c, draws=t.draws)))
     outs = ctx.driver.run_parallel([p[4] for p in pending])
     for (r, c, e, t, _), o in zip(pending, outs):
